@@ -245,6 +245,12 @@ def run(ctx):
     okarc = bool(a) and any("Arc<locked_file::LockedFileGuardInner>" in f["ty"] for v in a["variants"] for f in v["fields"])
     ctx.ob("R-C17.3", "locked_file::LockedFileGuard", "guard-is-arc-of-inner", okarc, "LockedFileGuard(Arc<LockedFileGuardInner>): unlock happens when the last clone drops" if okarc else "LockedFileGuard is not an Arc of the unlocking inner type", nontrivial=False)
 
+    # the lock file itself: created once (with the database), opened — never created, truncated or unlinked — afterwards.
+    # Unlinking it on drop (or re-creating it on open) lets an opener that already holds an fd on the old inode and a later
+    # opener of the new file both "own" the directory.
+    n_lock = FS.check_fs_table(ctx, "R-C17.3", fn_filter=lambda fid: fid.startswith("locked_file::") or fid.startswith("<locked_file::"))
+    ctx.floor("R-C17.3", "fs calls of the lock-file module", n_lock, 3)
+
     # ---- R-C17.4 drop quiesces and breaks cycles
     dd = ctx.fn("<db::DatabaseInner as std::ops::Drop>::drop", "R-C17.4")
     if dd:
